@@ -38,14 +38,3 @@ pub open spec fn fnv1a(s: Seq<u8>) -> u64
     if s.len() == 0 { 0xcbf29ce484222325u64 } else { fnv1a_step(fnv1a(s.drop_last()), s.last()) }
 }
 
-// ---- instantiation for read-only units: the fixed disk
-pub open spec fn hdr_meta(f: int, a: int) -> Metadata { hdr_meta_d(disk(f), a) }
-pub open spec fn entry_size(f: int, a: int) -> int { entry_size_d(disk(f), a) }
-pub open spec fn entry_ok(f: int, a: int) -> bool { entry_ok_d(disk(f), a) }
-pub open spec fn entry_end(f: int, a: int) -> int { entry_end_d(disk(f), a) }
-pub open spec fn packed(f: int, a: int, b: int) -> bool { packed_d(disk(f), a, b) }
-
-/// block b's bytes from in-block offset `off` to `upto` are a tiling of entries
-pub open spec fn block_packed_from(b: Block, off: u64, upto: u64) -> bool {
-    off <= upto && packed(b.mmap.file, b.offset + off, b.offset + upto) && b.offset + b.limit <= disk(b.mmap.file).len()
-}
